@@ -118,6 +118,21 @@ Definition line_auth (x : bytes) : bytes := cut_newlines (pre_auth ++ x).
 Definition sasl_payload (data : bytes) : bytes :=
   if len data >? 0 then b64_encode data else s_plus.
 
+(* IRCv3 sasl framing: a payload of 400 bytes or more travels in 400-byte chunks, and when the last
+   chunk is exactly 400 bytes long a final "+" follows.  handlers.go does NOT chunk (two TODOs):
+   it sends one line whatever the length.  The oracle accepts either form. *)
+Fixpoint sasl_chunks_fuel (fuel : nat) (p : bytes) : list bytes :=
+  match fuel with
+  | O => []
+  | S f => if (length p <? 400)%nat
+           then [match p with [] => s_plus | _ => p end]
+           else firstn 400 p :: sasl_chunks_fuel f (skipn 400 p)
+  end.
+Definition sasl_chunks (p : bytes) : list bytes := sasl_chunks_fuel (S (length p)) p.
+Definition sasl_data_ok (ir : bytes) (ls : list bytes) : bool :=
+  blist_eqb ls [line_auth (sasl_payload ir)]
+  || blist_eqb ls (map line_auth (sasl_chunks (sasl_payload ir))).
+
 Section Caps.
   (* strings.Fields (Unicode-aware in Go): every theorem holds for ANY function here;
      instantiated with the ASCII [fields] for running *)
@@ -343,8 +358,7 @@ Section Caps.
           (negb (has_req lines)
            && match auth_lines lines with
               | [] => true
-              | [l] => beq l (line_auth (sasl_payload ir))
-              | _ => false
+              | ls => sasl_data_ok ir ls          (* standard base64 with padding, or "+" *)
               end,
            match auth_lines lines with
            | [] => g
